@@ -1787,3 +1787,115 @@ def generate_names(src_dir):
             "import Serif.Prelude\n\nset_option linter.unusedVariables false\n\nnamespace Serif.Gen.TN\nopen Serif\n\n"
             + "\n\n".join(parts) + "\n\nend Serif.Gen.TN\n")
     return text, errors
+
+
+# ---------------------------------------------------------------------------------------------
+# Vector._elementwise_operation / _elementwise_compare / _unary_operation: the per-element rules and the branch structure
+# ---------------------------------------------------------------------------------------------
+def translate_elementwise(src):
+    """Every generator `tuple(<rule> for x, y in zip(self, other, strict=True))` / `tuple(<rule> for x in self…)` of the three
+    helpers: `<rule>` is a conditional expression whose test is a disjunction of `is None` tests on the loop variables; it is
+    translated as a match on exactly those variables (all present -> the else-branch with the values bound; otherwise the
+    then-branch).  The scalar function (`op_func`, `op`) is a parameter that may raise (`Res`)."""
+    tree = ast.parse(src)
+    out = []
+
+    def rule(gen, fname, tag, scalar_name):
+        if len(gen.generators) != 1 or gen.generators[0].ifs or not isinstance(gen.elt, ast.IfExp):
+            raise TranslateError(f"{fname}: generator shape")
+        g = gen.generators[0]
+        tgt, it = ast.unparse(g.target), ast.unparse(g.iter)
+        if tgt == "(x, y)" and it == "zip(self, other, strict=True)":
+            vs = ["x", "y"]
+        elif tgt == "x" and it in ("self", "self._underlying"):
+            vs = ["x"]
+        else:
+            raise TranslateError(f"{fname}: generator over {it}")
+        test = ast.unparse(gen.elt.test)
+        if test != " or ".join(f"{v} is None" for v in vs):
+            raise TranslateError(f"{fname}: guard {test}")
+        then, els = ast.unparse(gen.elt.body), ast.unparse(gen.elt.orelse)
+        args = ", ".join(vs + ([] if len(vs) == 2 or scalar_name is None else [scalar_name]))
+        if then == "None" and els in (f"op_func({args})",):
+            kind, absent, present = "arith", ".ok none", "(match op_func " + " ".join(args.split(", ")) + " with | .ok r => .ok (some r) | .error e => .error e)"
+            rtype = "Res (Option γ)"
+        elif then == "False" and els == f"bool(op({args}))":
+            kind, absent, present = "cmp", ".ok false", "op_func " + " ".join(args.split(", "))
+            rtype = "Res Bool"
+        else:
+            raise TranslateError(f"{fname}: rule {then} / {els}")
+        if len(vs) == 2:
+            sig = "(op_func : α → β → " + ("Res γ" if kind == "arith" else "Res Bool") + ") (x : Option α) (y : Option β)"
+            body = f"  match x, y with\n  | some x, some y => {present}\n  | _, _ => {absent}"
+        elif scalar_name:
+            sig = "(op_func : α → β → " + ("Res γ" if kind == "arith" else "Res Bool") + f") ({scalar_name} : β) (x : Option α)"
+            body = f"  match x with\n  | some x => {present}\n  | none => {absent}"
+        else:
+            sig = "(op_func : α → " + ("Res γ" if kind == "arith" else "Res Bool") + ") (x : Option α)"
+            body = f"  match x with\n  | some x => {present}\n  | none => {absent}"
+        tv = "{α β γ : Type} " if kind == "arith" and (len(vs) == 2 or scalar_name) else "{α γ : Type} " if kind == "arith" else "{α β : Type} "
+        return (f"/-- translated from `{ast.unparse(gen.elt)}` in `Vector.{fname}` ({tag}) -/\n"
+                f"def {tag} {tv}{sig} : {rtype} :=\n{body}")
+
+    def gens_of(node):
+        return [n.args[0] for n in ast.walk(node) if isinstance(n, ast.Call) and ast.unparse(n.func) == "tuple" and n.args
+                and isinstance(n.args[0], ast.GeneratorExp) and isinstance(n.args[0].elt, ast.IfExp)]
+
+    for fname, pre in (("_elementwise_operation", "arith"), ("_elementwise_compare", "cmp")):
+        f = find_func(tree, fname, "Vector")
+        tops = [s for s in f.body if isinstance(s, (ast.If, ast.Try, ast.Assign, ast.Return))]
+        # the three operand branches, in order: Vector, other iterable, scalar
+        vec = [s for s in f.body if isinstance(s, ast.If) and ast.unparse(s.test) == "isinstance(other, Vector)"]
+        itb = [s for s in f.body if isinstance(s, ast.If)
+               and ast.unparse(s.test) == "isinstance(other, Iterable) and (not isinstance(other, (str, bytes, bytearray)))"]
+        if len(vec) != 1 or len(itb) != 1 or f.body.index(vec[0]) > f.body.index(itb[0]):
+            raise TranslateError(f"{fname}: operand branches")
+        for br, tag in ((vec[0], "Vec"), (itb[0], "Seq")):
+            chk = br.body[0]
+            if not (isinstance(chk, ast.If) and ast.unparse(chk.test) == "len(self) != len(other)" and len(chk.body) == 1
+                    and isinstance(chk.body[0], ast.Raise) and ast.unparse(chk.body[0].exc).startswith("ValueError(")):
+                raise TranslateError(f"{fname}: length check of the {tag} branch")
+            gs = gens_of(br)
+            if not gs:
+                raise TranslateError(f"{fname}: no generator in the {tag} branch")
+            out.append(rule(gs[0], fname, f"{pre}Cell{tag}T", None))
+        after = f.body[f.body.index(itb[0]) + 1:]
+        gs = [g for s in after for g in gens_of(s)]
+        if len(gs) != 1:
+            raise TranslateError(f"{fname}: scalar branch")
+        out.append(rule(gs[0], fname, f"{pre}CellScalarT", "other"))
+        out.append(f"/-- translated from the branch structure of `Vector.{fname}` for a 1-D `self`: another Vector and any other iterable\n"
+                   f"    (not str / bytes / bytearray) first raise ValueError on a length difference and then zip strictly; everything else is a\n"
+                   f"    scalar.  `zipT` / `mapT` are the two generator forms. -/\n"
+                   f"def {pre}BranchesT {{ρ : Type}} (isVec isSeq : Bool) (lenSelf lenOther : Nat) (zipVec zipSeq mapScalar : Res ρ) : Res ρ :=\n"
+                   f"  if isVec then (if lenSelf != lenOther then .error Err.value else zipVec)\n"
+                   f"  else if isSeq then (if lenSelf != lenOther then .error Err.value else zipSeq)\n"
+                   f"  else mapScalar")
+    f = find_func(tree, "_unary_operation", "Vector")
+    gs = gens_of(f)
+    if len(gs) != 1:
+        raise TranslateError("_unary_operation: generator")
+    g = gs[0]
+    if not (ast.unparse(g.generators[0].target) == "x" and ast.unparse(g.generators[0].iter) == "self"
+            and ast.unparse(g.elt) == "None if x is None else op_func(x)"):
+        raise TranslateError("_unary_operation: rule")
+    out.append("/-- translated from `None if x is None else op_func(x)` in `Vector._unary_operation` -/\n"
+               "def unaryCellT {α γ : Type} (op_func : α → Res γ) (x : Option α) : Res (Option γ) :=\n"
+               "  match x with\n  | some x => (match op_func x with | .ok r => .ok (some r) | .error e => .error e)\n  | none => .ok none")
+    return out
+
+
+def generate_vec(src_dir):
+    """seventh generated file: the per-element rules of the elementwise helpers"""
+    parts, errors = [], []
+    try:
+        parts += translate_elementwise(open(os.path.join(src_dir, "vector.py")).read())
+    except Exception as ex:
+        errors.append(("elementwise", f"{type(ex).__name__}: {ex}"))
+        parts.append(f"-- elementwise: not translated ({type(ex).__name__})")
+    text = ("/- GENERATED by harness/py2lean.py from /repo's working tree — do not edit.\n"
+            "   Per-element rules and branch structure of Vector._elementwise_operation / _elementwise_compare / _unary_operation;\n"
+            "   equivalence theorems in Serif/Tie/Vec.lean. -/\n"
+            "import Serif.Prelude\n\nset_option linter.unusedVariables false\n\nnamespace Serif.Gen.TV\nopen Serif\n\n"
+            + "\n\n".join(parts) + "\n\nend Serif.Gen.TV\n")
+    return text, errors
